@@ -291,7 +291,7 @@ Section BodiesTotal.
     set (sl := firstn (end_index - (ind + 1)) (skipn (ind + 1) args)).
     destruct (trim sl) as [|c0 r0] eqn:Et. { split; [exact I|]. intros st' H; discriminate. }
     rewrite <- Et.
-    destruct (make_logic_var (trim sl)) as [var|]; [|split; [exact I|]; intros st' H; discriminate].
+    destruct (if str_eqb (trim sl) [c_dollar; c_underscore] then POk TAnon else make_logic_var (trim sl)) as [var|]; [|split; [exact I|]; intros st' H; discriminate].
     destruct (link_front_list var true list Hl) as (l' & -> & Hl'). cbn [bind].
     split; [exact I|]. intros st' H; inversion H; subst; simpl. repeat split; try lia; exact Hl'.
   Qed.
